@@ -157,6 +157,17 @@ def run(v):
 def replay(v, path):
     rep = json.load(open(path))
     r = rep["replay"]
+    if r.get("oracle_code") in (70, 71):
+        # download-fault jobs are regenerated with their histories: run the check's own batch again
+        v.seed = rep.get("seed", v.seed)
+        v.tier = rep.get("tier", v.tier)
+        n0 = len(v.violations)
+        run(v)
+        hits = [x for x in v.violations[n0:] if x["signature"] == rep["signature"]]
+        for x in hits[:3]:
+            print("REPLAY-VIOLATION %s: %s" % (x["signature"], x["detail"][:300]))
+        print("batch re-run: %d occurrence(s) of %s" % (len(hits), rep["signature"]))
+        return 1 if hits else 0
     lines = r.get("case_lines")
     if not lines:
         print("replay file names no input:", r.get("theorem_or_correspondence"))
